@@ -67,11 +67,15 @@ type dest struct {
 }
 
 // A-B differ in the dataset only, A-C in the host only, A-D in the API key only; B-C, B-D, C-D in two components.
+// A, E, F share exactly ONE component pairwise: A-E the host only, A-F the API key only, E-F the dataset only (so a
+// transmission that keys its batches by any single component, or drops any single component, merges a pair).
 var dests = map[string]dest{
 	"A": {"A", "http://h1.test", "key1", "ds1"},
 	"B": {"B", "http://h1.test", "key1", "ds2"},
 	"C": {"C", "http://h2.test", "key1", "ds1"},
 	"D": {"D", "http://h1.test", "key2", "ds1"},
+	"E": {"E", "http://h1.test", "key2", "ds2"},
+	"F": {"F", "http://h2.test", "key1", "ds2"},
 }
 
 // ---------------------------------------------------------------------------------------------
@@ -581,6 +585,9 @@ type batch struct {
 	Dest     string
 	Attempts []*answer // answer given to each attempt (nil = not answered yet)
 	First    time.Duration
+	ReqAt    []time.Duration // fake time of each attempt's request
+	AnsAt    []time.Duration // fake time of each attempt's answer
+	AtStop   bool            // first requested while Stop() was running
 }
 
 type world struct {
@@ -601,10 +608,20 @@ type world struct {
 	reqs      []*request
 	stopped   bool
 	idleAtEnd bool
+	allAtEnd  bool // the last quiescent instant had an outcome for every event
 	stopDone  chan struct{}
 	stopPanic any
 	trace     []string
 	fail      *failure
+	census    map[string]int64 // vacuity census of this execution (merged into the evidence when it passes)
+	stopping  bool             // Stop() has been called and has not returned yet
+}
+
+func (w *world) note(key string, n int64) {
+	if w.census == nil {
+		w.census = map[string]int64{}
+	}
+	w.census[key] += n
 }
 
 type failure struct{ Sig, What string }
@@ -737,6 +754,19 @@ func (w *world) advance(d time.Duration) {
 // earliest wake-up instant loses nothing).
 func (w *world) stop() {
 	w.stopped = true
+	w.stopping = true
+	defer func() { w.stopping = false }()
+	pending := 0
+	for _, id := range w.order {
+		if !w.events[id].Big && w.inBatch[id] == nil {
+			pending++
+		}
+	}
+	if pending > 0 {
+		w.note("g_stops_with_pending_events", 1)
+	} else {
+		w.note("g_stops_with_nothing_pending", 1)
+	}
 	w.stopDone = make(chan struct{})
 	w.trace = append(w.trace, fmt.Sprintf("@%v stop", w.now()))
 	go func() {
